@@ -220,8 +220,17 @@ def run(ctx):
     # ---------------------------------------------------------------- C08.6 / C08.7 (candidate loop)
     rn = prog.body_of(REC + "resolve_recursive_notimeout")
     rr = A.Resolver(rn)
-    names = {nm: l for l, nm in rn.names.items()}
-    mc, ch, nx, fl = (names.get(x) for x in ("match_count", "candidate_hostnames", "next_candidate_hostnames", "resolve_candidates_locally"))
+    # the four loop variables, found by their roles (not their names):
+    #   work-list = the Vec popped by the loop; deferred list = the Vec the loop pushes a clone of the popped host onto;
+    #   phase flag = the bool handed to resolve_hostname_to_ip; match count = the usize defined by Nameservers::match_count()
+    def _one(xs):
+        xs = sorted(set(x for x in xs if x is not None))
+        return xs[0] if len(xs) == 1 else None
+    ch = _one(A.root_local(rn, t["args"][0]) for b, t in A.call_blocks(rn, A.name_endswith("Vec::<T, A>::pop")))
+    fl = _one(A.root_local(rn, t["args"][1]) for b, t in A.call_blocks(rn, A.name_is(REC + "resolve_hostname_to_ip")) if len(t["args"]) >= 2)
+    mc = _one(l for l in A.locals_defined_as(rn, rr, lambda e: A.peel(e)[0] == "call" and A.peel(e)[1].endswith("Nameservers::match_count")) if rn.locals[l].get("user"))
+    nx = _one(A.root_local(rn, t["args"][0]) for b, t in A.call_blocks(rn, A.name_endswith("Vec::<T, A>::push"))
+              if "DomainName" in rn.local_ty(A.root_local(rn, t["args"][0]) or 0) and A.root_local(rn, t["args"][0]) != ch)
     ctx.check(None not in (mc, ch, nx, fl), "C08.6", "candidate-loop:variables", "found match_count / candidate_hostnames / next_candidate_hostnames / resolve_candidates_locally",
               "candidate loop variables not found (anchor moved)", rn.loc())
     if None not in (mc, ch, nx, fl):
@@ -239,7 +248,8 @@ def run(ctx):
             for b, t in A.call_blocks(fn, A.name_is(REC + "validate_nameserver_response")):
                 e = A.Resolver(fn).call_expr(t, b)
                 ps = A.path_str(e[2][2])
-                ctx.check(ps is not None and ps.endswith("match_count"), "C08.6", "validate:current-match_count", "validate_nameserver_response(.., match_count)",
+                is_mc = (fn is rn and A.root_local(fn, t["args"][2]) == mc) or (ps is not None and mc is not None and ps.lstrip("^*") == rn.names.get(mc))
+                ctx.check(is_mc, "C08.6", "validate:current-match_count", "validate_nameserver_response(.., match_count)",
                           "validator called with match count %s" % A.show(e[2][2]), fn.loc(b))
         # work-list re-seeding
         for d in rn.defs().get(ch, []):
